@@ -50,11 +50,30 @@ func (r *RecStore) Put(ctx context.Context, b *common.Beacon) error {
 	return err
 }
 
-// History returns a copy of the Put history.
+// History returns a copy of the Put history (without the stale writes of stopped incarnations).
 func (r *RecStore) History() []*PutEvent {
 	r.mu.Lock()
 	defer r.mu.Unlock()
-	return append([]*PutEvent(nil), r.Hist...)
+	out := make([]*PutEvent, 0, len(r.Hist))
+	for _, ev := range r.Hist {
+		if !ev.Stale {
+			out = append(out, ev)
+		}
+	}
+	return out
+}
+
+// StaleWrites counts Puts attempted by handlers of earlier incarnations after the node was restarted.
+func (r *RecStore) StaleWrites() int {
+	r.mu.Lock()
+	defer r.mu.Unlock()
+	n := 0
+	for _, ev := range r.Hist {
+		if ev.Stale {
+			n++
+		}
+	}
+	return n
 }
 
 func (r *RecStore) Len(ctx context.Context) (int, error)             { return r.b().Len(ctx) }
@@ -68,6 +87,41 @@ func (r *RecStore) Cursor(ctx context.Context, f func(context.Context, chain.Cur
 func (r *RecStore) Close() error                                  { return r.b().Close() }
 func (r *RecStore) Del(ctx context.Context, round uint64) error   { return r.b().Del(ctx, round) }
 func (r *RecStore) SaveTo(ctx context.Context, w io.Writer) error { return r.b().SaveTo(ctx, w) }
+
+// incStore is what one incarnation of the node's handler is given: it writes to the base store of ITS incarnation. A handler
+// that was stopped can still have a goroutine finishing a Put; in reality that process is gone, so such a write must neither
+// reach the store of the next incarnation nor count in its history (it is recorded as stale).
+type incStore struct {
+	*RecStore
+	own chain.Store
+	inc int
+}
+
+func (v *incStore) Put(ctx context.Context, b *common.Beacon) error {
+	if v.node.Inc == v.inc {
+		return v.RecStore.Put(ctx, b)
+	}
+	err := v.own.Put(ctx, b)
+	ev := &PutEvent{Seq: v.node.net.seq.Add(1), Step: v.node.net.Step(), Round: b.Round, Incarnation: v.inc, Stale: true}
+	if err != nil {
+		ev.Err = err.Error()
+	}
+	v.mu.Lock()
+	v.Hist = append(v.Hist, ev)
+	v.mu.Unlock()
+	return err
+}
+func (v *incStore) Len(ctx context.Context) (int, error)             { return v.own.Len(ctx) }
+func (v *incStore) Last(ctx context.Context) (*common.Beacon, error) { return v.own.Last(ctx) }
+func (v *incStore) Get(ctx context.Context, round uint64) (*common.Beacon, error) {
+	return v.own.Get(ctx, round)
+}
+func (v *incStore) Cursor(ctx context.Context, f func(context.Context, chain.Cursor) error) error {
+	return v.own.Cursor(ctx, f)
+}
+func (v *incStore) Close() error                                  { return v.own.Close() }
+func (v *incStore) Del(ctx context.Context, round uint64) error   { return v.own.Del(ctx, round) }
+func (v *incStore) SaveTo(ctx context.Context, w io.Writer) error { return v.own.SaveTo(ctx, w) }
 
 // Base gives direct access to the base store (for corruption in C10 and scans in C02).
 func (r *RecStore) Base() chain.Store { return r.b() }
